@@ -73,6 +73,16 @@ func install(codec int) (restore func(), counter counts) {
 		c := &altCodec{}
 		osm.CustomJSONMarshaler, osm.CustomJSONUnmarshaler = c, c
 		return restore, c
+	case 3:
+		// only the marshalling half is installed
+		c := &countingCodec{}
+		osm.CustomJSONMarshaler, osm.CustomJSONUnmarshaler = c, nil
+		return restore, c
+	case 4:
+		// only the unmarshalling half is installed
+		c := &countingCodec{}
+		osm.CustomJSONMarshaler, osm.CustomJSONUnmarshaler = nil, c
+		return restore, c
 	}
 	osm.CustomJSONMarshaler, osm.CustomJSONUnmarshaler = nil, nil
 	return restore, nil
@@ -197,6 +207,10 @@ func roundTrip(c ValueCase, codec int) (string, *harness.Failure) {
 	if d := shape(data); d != "" {
 		return "", &harness.Failure{Sig: "C05/shape", Msg: fmt.Sprintf("codec %d: %s\n%s", codec, d, data)}
 	}
+	// a value that is not addressable marshals like the pointer
+	if byValue, err := json.Marshal(*v); err != nil || !bytes.Equal(byValue, data) {
+		return "", &harness.Failure{Sig: "C05/by-value-differs", Msg: fmt.Sprintf("codec %d: json.Marshal of the OSM value and of the pointer differ (%v):\n value   %s\n pointer %s", codec, err, byValue, data)}
+	}
 	var back osm.OSM
 	if err := json.Unmarshal(data, &back); err != nil {
 		return "", &harness.Failure{Sig: "C05/own-output-rejected", Msg: fmt.Sprintf("codec %d: own output does not unmarshal: %v\n%s", codec, err, data)}
@@ -231,7 +245,7 @@ func roundTrip(c ValueCase, codec int) (string, *harness.Failure) {
 	}
 	if counter != nil {
 		m, u := counter.get()
-		if m == 0 || u == 0 {
+		if (m == 0 && codec != 4) || (u == 0 && codec != 3) || (m != 0 && codec == 4) || (u != 0 && codec == 3) {
 			return "", &harness.Failure{Sig: "C05/custom-codec-not-used", Msg: fmt.Sprintf("custom codec installed but consulted %d times for marshalling and %d times for unmarshalling", m, u)}
 		}
 	}
@@ -271,14 +285,14 @@ func checkValue(c ValueCase) error {
 func TestValueRoundTrip(t *testing.T) {
 	harness.Run(t, harness.Spec[ValueCase]{
 		Name: "value-roundtrip", N: 4000,
-		Rule: "osm.OSM values over every element kind (nodes, ways with annotated way nodes/updates/bounds, relations incl. zero members and nested member nodes, changesets with discussions, notes, users; a third with a top-level Bounds), unique tag keys, under three codec configurations (standard library; counting pass-through codec; an Encoder-without-HTML-escaping / Decoder-with-UseNumber codec); oracle = output parsed generically has the osmjson shape (elements array, every element typed, tags object, way nodes integer array, members array never null), Unmarshal(Marshal(v)) equals the model up to tag order and way-node/member-node annotations, top-level fields preserved, custom codec actually consulted, the bytes returned by a direct OSM.MarshalJSON call are unchanged after every element, tag list, way-node list, member list and a second document have been marshalled; non-trivial = >= 2 element kinds, or a relation without members, or a custom codec",
+		Rule: "osm.OSM values over every element kind (nodes, ways with annotated way nodes/updates/bounds, relations incl. zero members and nested member nodes, changesets with discussions, notes, users; a third with a top-level Bounds), unique tag keys, under five codec configurations (standard library; counting pass-through codec; an Encoder-without-HTML-escaping / Decoder-with-UseNumber codec; only the marshalling half installed; only the unmarshalling half installed); oracle = output parsed generically has the osmjson shape (elements array, every element typed, tags object, way nodes integer array, members array never null), Unmarshal(Marshal(v)) equals the model up to tag order and way-node/member-node annotations, top-level fields preserved, each installed codec half actually consulted (and only it), the OSM value marshals like the pointer, the bytes returned by a direct OSM.MarshalJSON call are unchanged after every element, tag list, way-node list, member list and a second document have been marshalled; non-trivial = >= 2 element kinds, or a relation without members, or a custom codec",
 		Gen: func(t *rapid.T) ValueCase {
 			o := osmdoc.GenOpt{UniqueTagKeys: true, NoteFractions: true}
 			d := osmdoc.GenDoc(t, o, "nwrcNu")
 			if rapid.IntRange(0, 2).Draw(t, "topBounds") == 0 {
 				d.Items = append(d.Items, osmdoc.GenItem(t, o, "b"))
 			}
-			return ValueCase{Doc: d, Codec: rapid.IntRange(0, 2).Draw(t, "codec")}
+			return ValueCase{Doc: d, Codec: rapid.IntRange(0, 4).Draw(t, "codec")}
 		},
 		Check: checkValue,
 		Classify: func(c ValueCase) (bool, []string) {
@@ -374,7 +388,7 @@ func TestOSMJSONDocuments(t *testing.T) {
 				Doc: osmdoc.GenDoc(t, osmdoc.GenOpt{UniqueTagKeys: true, NoAnnotations: true}, "nwr"),
 				Style: osmdoc.JSONStyle{Seed: int64(rapid.IntRange(1, 1<<30).Draw(t, "seed")), VersionKind: rapid.IntRange(0, 2).Draw(t, "versionKind"), UnknownKeys: rapid.Bool().Draw(t, "unknown"),
 					Minimal: rapid.Bool().Draw(t, "minimal"), Shuffle: rapid.Bool().Draw(t, "shuffle"), Pretty: rapid.Bool().Draw(t, "pretty")},
-				Codec: rapid.IntRange(0, 2).Draw(t, "codec"),
+				Codec: rapid.IntRange(0, 4).Draw(t, "codec"),
 			}
 		},
 		Check: checkDoc,
